@@ -1,6 +1,6 @@
 """Renderer for the lexeme texts of spec/DeckSyntax.tla: lexemes -> characters, with the
 spelling of blanks, tabs and indentation drawn from a seeded generator."""
-DOUBLES = {1: "2000.5", 2: "150.25", 3: "1900.125", 4: "0.25", 5: "0.3", 6: "1.0", 7: "1.5E-3", 8: "-7.25e+2", 9: "100.5"}
+DOUBLES = {1: "2000.5", 2: "150.25", 3: "1900.125", 4: "0.25", 5: "0.3", 6: "1.0", 7: "1.5E-3", 8: "-7.25e+2", 9: "100.5", 10: "1.05", 11: "1.1"}
 COMMENTS = {1: "-- plain comment", 2: "--", 3: "-- it's got an odd quote", 4: "-- with / slash and 'quoted / text'",
             5: "--'starts with a quote", 6: "-- ends with a slash /"}
 TRAILS = {1: "trailing text", 2: "text with / another slash", 3: "WELSPECS looks like a keyword", 4: "100 2*3 more / and so on"}
